@@ -11,7 +11,7 @@ HYPOTHESES = []
 NOT_YET_PROVED = []
 ASSUMPTIONS = []
 nontrivial = nontrivial_default
-EXTRA_MODULES = {"Props.TieCofactor": "PyEcc.Tie.", "Props.TieCodec": "PyEcc.Tie."}
+EXTRA_MODULES = {"Props.TieCofactor": "PyEcc.Tie.", "Props.TieCodec": "PyEcc.Tie.", "Props.TieFieldsFq": "PyEcc.Tie.", "Props.TieFieldsFqp": "PyEcc.Tie.", "Props.TieFieldsMul": "PyEcc.Tie.", "Props.TieFieldsPoly": "PyEcc.Tie.", "Props.TieFieldsInv": "PyEcc.Tie."}
 
 H1_FACTORS = [3, 11, 11, 10177, 10177, 859267, 859267, 52437899, 52437899]   # h1 = 3 * 11^2 * 10177^2 * 859267^2 * 52437899^2
 H2_SMALL = [13, 13, 23, 23, 2713, 11953, 262069]
